@@ -184,6 +184,8 @@ def run(chk):
             except Exception as ex:
                 chk.failure("schedule %s raised %r" % (name, ex), dict(base_case, order=None, schedule=name))
         g2 = lambda: dict((k, set(v)) for k, v in graph.items())
+        # the edges the GROUP registry holds for the same components (what dr.run(<group>) / the default graph sort on)
+        whole("group-graph", lambda b: dr.run(world.group_graph(list(graph)), broker=b))
         whole("run_incremental", lambda b: list(dr.run_incremental(g2(), b)))
         pool = DeferPool(rng)
         whole("run_all/defer", lambda b: dr.run_all(g2(), b, pool))
@@ -202,6 +204,40 @@ def run(chk):
         for name, text, case in results[1:]:
             if text != ref:
                 chk.failure("schedule %s gives a different result than dr.run:\n  run: %s\n  %s: %s" % (name, ref, name, text), case)
+        # a later registration changes edges among the same components: single pass, sub-graphs and the group graph must still agree
+        cands = world.late_candidates(set(world.ids[k] for k in graph)) if dropped is None else []
+        if cands and idx % 2 == 0:
+            pnt, dsid = rng.choice(cands)
+            world.late_register(pnt, dsid)
+            graph2 = world.graph_for(targets)
+            lcase = dict(base_case, order=None, late=[pnt, dsid])
+            lines.extend(world.lines(seeds))
+            late_results = []
+            for name, fn in (("late/run", lambda b: dr.run(dict((k, set(v)) for k, v in graph2.items()), broker=b)),
+                             ("late/run_incremental", lambda b: list(dr.run_incremental(dict((k, set(v)) for k, v in graph2.items()), b))),
+                             ("late/group-graph", lambda b: dr.run(world.group_graph(list(graph2)), broker=b)),
+                             ("late/extension", None)):
+                b = world.new_broker(seeds, ss)
+                W.instrument(world, b)
+                try:
+                    if fn is None:
+                        o = W.linear_extensions(rng, world, graph2, 1)[0]
+                        r = W.evaluate(world, seeds, ss, graph2, order=o)
+                        lines.append(r.run_line)
+                        impl.append(r.text)
+                        cases.append(dict(lcase, order=r.order_ids, schedule=name))
+                        late_results.append((name, plain(r.text)))
+                    else:
+                        fn(b)
+                        late_results.append((name, plain(W.canon_broker(world, b))))
+                except Exception as ex:
+                    chk.failure("schedule %s raised %r" % (name, ex), dict(lcase, schedule=name))
+            lref = late_results[-1][1] if late_results else None       # the forced valid order is the reference
+            for name, text in late_results[:-1]:
+                if text != lref:
+                    chk.failure("after a late registration schedule %s differs from a valid order:\n  valid order: %s\n  %s: %s" % (name, lref, name, text),
+                                dict(lcase, schedule=name))
+            chk.count("late-registration")
         att = W.split_text(impl[-1]).get("att", "") if impl else ""
         chk.case(ref, nontrivial=len(subs) >= 2 or att.count(",") >= 3)
         summary.append(ref)
@@ -248,13 +284,13 @@ def oracle_single(rep, world, r, case):
     pass
 
 
-def replay(data):
+def _replay_once(data):
     case = data["case"]
     if "world_index" in case:
         print("hash-seed divergence: re-run `VERIF_SEED=%s ./check C04` (world %s, PYTHONHASHSEED=%s)" % (case["verif_seed"], case["world_index"], case["hashseed"]))
         return 1
     import random
-    world, seeds, graph = W.rebuild(case)
+    world, seeds, graph = W.rebuild(case)        # re-creates the history incl. a late registration
     if case.get("dropped") is not None:
         graph.pop(world.comps[case["dropped"]], None)
     ss = case["store_skips"]
@@ -286,7 +322,15 @@ def replay(data):
             sorted((world.ids.get(k), v) for k, v in cnt.items() if v != 1),
             sorted(world.ids.get(k, "?") for k in cnt if k not in graph), sorted(world.ids[k] for k in graph if k not in cnt)))
         bad = True
-    for name, fn in (("run_incremental", lambda b: list(dr.run_incremental(g2(), b))),
+    if case.get("late"):
+        o = W.linear_extensions(random.Random(1), world, graph, 1)[0]
+        ref = W.evaluate(world, seeds, ss, graph, order=o)
+        print("valid order (after the late registration):", plain(ref.text))
+        r2 = W.evaluate(world, seeds, ss, graph, mode="run")
+        print("dr.run (after the late registration):    ", plain(r2.text))
+        bad |= plain(r2.text) != plain(ref.text)
+    for name, fn in (("group-graph", lambda b: dr.run(world.group_graph(list(graph)), broker=b)),
+                     ("run_incremental", lambda b: list(dr.run_incremental(g2(), b))),
                      ("run_all/defer", lambda b: dr.run_all(g2(), b, DeferPool(random.Random(0)))),
                      ("run_all/threads4", threads), ("_run(parallel)", entry)):
         b = world.new_broker(seeds, ss)
@@ -300,3 +344,14 @@ def replay(data):
         bad |= t != plain(ref.text)
     print("property violated on this input" if bad else "property holds on this input")
     return 1 if bad else 0
+
+
+def replay(data):
+    """which schedule goes wrong can depend on set iteration order of freshly created components: rebuild up to 6 times"""
+    rc = 0
+    for attempt in range(6):
+        rc = _replay_once(data)
+        if rc:
+            return rc
+        print("(attempt %d did not reproduce; rebuilding the world with fresh component objects)" % (attempt + 1))
+    return rc
